@@ -144,6 +144,12 @@ define {
       \cup (IF sk[k].pulls < MaxPull /\ (~CFG.c14 \/ sk[k].credit > 0) THEN {"pull"} ELSE {})
       \cup {"term"}
       \cup (IF CFG.sinkErr THEN {"err"} ELSE {})
+      \* re-entrant emission: from inside its handler the sink makes a listenable upstream emit at once
+      \* (a feedback loop through a subject); scenarios with cfg.reentrant only
+      \cup (IF ~top /\ CFG.reentrant
+            THEN {"kick " \o IName(ix) : ix \in {q \in 1..Len(pi) : PupLive(q) /\ PupMode(pi[q].pup) # "pull"
+                                                                   /\ pi[q].sent < MaxData}}
+            ELSE {})
   SubOpts(p) == {"now"} \cup (IF PupLate(p) THEN {"later"} ELSE {})
   AnswerOpts(ix) == (IF pi[ix].sent < MaxData THEN {"data"} ELSE {}) \cup {"end"}
                     \cup (IF CFG.allowFail THEN {"err"} ELSE {})
@@ -1099,6 +1105,8 @@ SA0:
   } else if (ca = "err") {
     sk[ka].disposed := TRUE;
     call Deliver(KName(ka), sk[ka].tb, MsgE(800 + ka));
+  } else if (\E ix \in 1..Len(pi) : ca = "kick " \o IName(ix)) {
+    call Emit(CHOOSE ix \in 1..Len(pi) : ca = "kick " \o IName(ix));
   };
 SA1:
   return;
@@ -1344,6 +1352,12 @@ SinkOpts(k, top) ==
     \cup (IF sk[k].pulls < MaxPull /\ (~CFG.c14 \/ sk[k].credit > 0) THEN {"pull"} ELSE {})
     \cup {"term"}
     \cup (IF CFG.sinkErr THEN {"err"} ELSE {})
+
+
+    \cup (IF ~top /\ CFG.reentrant
+          THEN {"kick " \o IName(ix) : ix \in {q \in 1..Len(pi) : PupLive(q) /\ PupMode(pi[q].pup) # "pull"
+                                                                 /\ pi[q].sent < MaxData}}
+          ELSE {})
 SubOpts(p) == {"now"} \cup (IF PupLate(p) THEN {"later"} ELSE {})
 AnswerOpts(ix) == (IF pi[ix].sent < MaxData THEN {"data"} ELSE {}) \cup {"end"}
                   \cup (IF CFG.allowFail THEN {"err"} ELSE {})
@@ -3139,7 +3153,7 @@ DDisp(self) == /\ pc[self] = "DDisp"
                                                                                                                                                                                                                                      sx, 
                                                                                                                                                                                                                                      ch >>
                                                                                                                                                                                                      ELSE /\ Assert(FALSE, 
-                                                                                                                                                                                                                    "Failure of assertion at line 1076, column 5.")
+                                                                                                                                                                                                                    "Failure of assertion at line 1082, column 5.")
                                                                                                                                                                                                           /\ pc' = [pc EXCEPT ![self] = "Ret"]
                                                                                                                                                                                                           /\ UNCHANGED << st, 
                                                                                                                                                                                                                           tasks, 
@@ -5793,6 +5807,7 @@ SA0(self) == /\ pc[self] = "SA0"
                         /\ lv' = [lv EXCEPT ![self] = 0]
                         /\ snap' = [snap EXCEPT ![self] = <<>>]
                         /\ pc' = [pc EXCEPT ![self] = "DStart"]
+                        /\ ex' = ex
                    ELSE /\ IF ca[self] = "term"
                               THEN /\ sk' = [sk EXCEPT ![ka[self]].disposed = TRUE]
                                    /\ /\ fr' = [fr EXCEPT ![self] = KName(ka[self])]
@@ -5817,6 +5832,7 @@ SA0(self) == /\ pc[self] = "SA0"
                                    /\ lv' = [lv EXCEPT ![self] = 0]
                                    /\ snap' = [snap EXCEPT ![self] = <<>>]
                                    /\ pc' = [pc EXCEPT ![self] = "DStart"]
+                                   /\ ex' = ex
                               ELSE /\ IF ca[self] = "err"
                                          THEN /\ sk' = [sk EXCEPT ![ka[self]].disposed = TRUE]
                                               /\ /\ fr' = [fr EXCEPT ![self] = KName(ka[self])]
@@ -5841,13 +5857,23 @@ SA0(self) == /\ pc[self] = "SA0"
                                               /\ lv' = [lv EXCEPT ![self] = 0]
                                               /\ snap' = [snap EXCEPT ![self] = <<>>]
                                               /\ pc' = [pc EXCEPT ![self] = "DStart"]
-                                         ELSE /\ pc' = [pc EXCEPT ![self] = "SA1"]
-                                              /\ UNCHANGED << sk, stack, fr, 
-                                                              to, m, lg, sx, 
-                                                              jx, ch, lv, snap >>
+                                              /\ ex' = ex
+                                         ELSE /\ IF \E ix \in 1..Len(pi) : ca[self] = "kick " \o IName(ix)
+                                                    THEN /\ /\ ex' = [ex EXCEPT ![self] = CHOOSE ix \in 1..Len(pi) : ca[self] = "kick " \o IName(ix)]
+                                                            /\ stack' = [stack EXCEPT ![self] = << [ procedure |->  "Emit",
+                                                                                                     pc        |->  "SA1",
+                                                                                                     ex        |->  ex[self] ] >>
+                                                                                                 \o stack[self]]
+                                                         /\ pc' = [pc EXCEPT ![self] = "E0"]
+                                                    ELSE /\ pc' = [pc EXCEPT ![self] = "SA1"]
+                                                         /\ UNCHANGED << stack, 
+                                                                         ex >>
+                                              /\ UNCHANGED << sk, fr, to, m, 
+                                                              lg, sx, jx, ch, 
+                                                              lv, snap >>
              /\ UNCHANGED << ci, st, nd, pi, fi, tasks, now, obs, script, ntop, 
-                             panicked, done, ka, ca, gx, ex, nx, fx, bx, bc, 
-                             tx, ta, tc, ft, act, sj >>
+                             panicked, done, ka, ca, gx, nx, fx, bx, bc, tx, 
+                             ta, tc, ft, act, sj >>
 
 SA1(self) == /\ pc[self] = "SA1"
              /\ pc' = [pc EXCEPT ![self] = Head(stack[self]).pc]
